@@ -1,7 +1,8 @@
 """C01 -- model coordinates consistent, one metric (G1, D1, I1, U1)."""
 from ..rules import hyp_rules as H
 from ..rules import chart_rules as C
-from ..rules.common import u1
+from ..rules import cache_rules as CA
+from ..rules.common import u1, n1
 
 ENTRIES = [
     (H.HYP, "Point.__init__"), (H.HYP, "Point.coords"),
@@ -18,6 +19,10 @@ def run(ctx):
     H.rule_d1(ctx)
     H.rule_i1(ctx)
     C.rule_chart_slot(ctx)
+    n1(ctx, ["geometry_tools/hyperbolic.py", "geometry_tools/projective.py"])
+    CA.rule_c2(ctx, "ProjectiveObject")
+    H.rule_h2(ctx)
+    H.rule_h1(ctx)
     u1(ctx, ENTRIES, min_functions=15)
     ctx.r.assume("round-trip equality, agreement of the closed-form metrics, "
                  "symmetry and the triangle inequality are numerical and not "
